@@ -2,5 +2,5 @@
 import resource
 TUS = resource.TUS
 def run(facts, rep, tier):
-    resource.emit(facts, rep, 'C12', ['RES.2c', 'RES.3', 'RES.5', 'RES.7', 'RES.10', 'RES.11', 'RES.13', 'RES.15b'],
+    resource.emit(facts, rep, 'C12', ['RES.2c', 'RES.3', 'RES.5', 'RES.7', 'RES.10', 'RES.11', 'RES.13', 'RES.15b', 'RES.16'],
                   {'RES.2c': 2, 'RES.3': 8, 'RES.5': 6, 'RES.7': 1, 'RES.10': 2, 'RES.11': 8, 'RES.13': 8, 'RES.15b': 2})
